@@ -6,7 +6,7 @@ SPEC = {
     'cxxflags': ['-fsanitize-recover=float-cast-overflow'],
     'lean_modules': ['N2k.Props.C15'], 'props_files': ['N2k/Props/C15.lean'],
     'translators': ['published'],   # runs the layout translator itself, then copies the frozen table for the harness
-    'case_start': ['set', 'pgnlist'],
+    'case_start': ['set', 'pgnlist', 'prodinfo'],
     'trusted_base': [
         "frozen specification lean/N2k/Spec/PublishedLayouts.lean: 31 hand-written tables (field name, bit offset, length, "
         "signedness, resolution, library parameter) written from the public PGN definitions (canboat-style field lists, as "
@@ -26,6 +26,8 @@ SPEC = {
         "repeated records (129029 reference stations): frozen (count field, fixed bytes, bytes per record); the kernel checks on "
         "every fully translated setter path that payload length = fixed part + count records for every count value the path "
         "condition admits (C15_record_counts); the harness compares count field and payload length on every tuple",
+        "PGN 126996 is also produced through a real node behind the mock driver (stored product information -> "
+        "SendProductInformation, frames reassembled) and compared with the published table (oracle only)",
         "enumerated fields: a frozen table (enumerator name -> published numeric code, numeric literals) is compared by the "
         "kernel with the enumerations as read from the headers on this run (C15_enum_*), and the harness looks the passed value "
         "up BY NAME among the enumerators as compiled from the real headers and demands the published code on the wire",
